@@ -14,7 +14,8 @@ EXTENDS RibRef
 
 CONSTANTS K4, KF, KV, \* route keys per family (IPv4 prefixes, flowspec rules, VPNv4 routes)
           ATTRS,     \* attribute-set ids, e.g. {1, 2}
-          MAXOPS     \* UPDATEs per behaviour (CONSTRAINT)
+          MAXOPS,    \* UPDATEs per behaviour (CONSTRAINT)
+          MAXSEQ     \* routes per withdrawn / announced list (1 or 2)
 
 Fams == {"ipv4", "flowspec", "mpls_vpn"}
 KEYS == [ipv4 |-> K4, flowspec |-> KF, mpls_vpn |-> KV]
@@ -22,7 +23,7 @@ Dirs == {"in", "out"}
 VARIABLES up, tab, ver, n, ev
 vars == <<up, tab, ver, n, ev>>
 
-Seqs(S) == {<<>>} \cup {<<x>> : x \in S} \cup {<<x, y>> : x, y \in S}
+Seqs(S) == {<<>>} \cup {<<x>> : x \in S} \cup (IF MAXSEQ >= 2 THEN {<<x, y>> : x, y \in S} ELSE {})
 Init == /\ up = TRUE /\ n = 0
         /\ tab = [d \in Dirs |-> [f \in Fams |-> Empty(KEYS[f])]]
         /\ ver = [d \in Dirs |-> [f \in Fams |-> 0]]
